@@ -474,8 +474,8 @@ def r_deps_self(c):
                     f"the {short(k)} itself (every sibling handler adds frozenset([expr])): a "
                     "stored/sent node of this kind is not found among the dependencies of "
                     "what uses it, so the partitioner places it in the wrong part")
-    if n < 30:
-        raise AnalysisError(f"only {n} dependency handlers analysed (floor 30)")
+    if n < 21:
+        raise AnalysisError(f"only {n} dependency handlers analysed (floor 21)")
 
 
 def r_stateless_getters(c):
@@ -515,8 +515,8 @@ def r_stateless_getters(c):
 SPEC = Spec(
     prop="C20",
     rules=[r_converse, r_topo, r_count, r_materialized, r_deps_self, r_stateless_getters],
-    floors={"R20-CONVERSE": 90, "R20-TOPO": 40, "R20-COUNT": 14,
-            "R20-MATERIALIZED": 9, "R20-DEPS": 30},
+    floors={"R20-CONVERSE": 90, "R20-TOPO": 40, "R20-COUNT": 10, "R20-MATERIALIZED": 7,
+            "R20-DEPS": 26},
     explanation=(
         "R20-CONVERSE: for every concrete node kind the handlers of "
         "ListOfUsersCollector, UsersCollector and ListOfDirectPredecessorsGetter "
